@@ -89,6 +89,9 @@ var c19eKinds = map[string]c19eKind{
 	// index names, query side
 	"delR": {1, false, "index"}, "delE": {1, false, "index"}, "delH": {1, false, "index"}, "delapiE": {1, false, "index"},
 	"srchidx": {1, false, "index"}, "sortcol": {2, false, "index"},
+	// column names: the JSON KEY of an ingested event (+ queries that make the background writers care about the column:
+	// group-by usage for the aggregation tree, a repeated filter for persistent query results), rotation, sort by it
+	"evkey": {1, false, "column"}, "sortq": {1, false, "column"},
 	// aliases
 	"aliasAdd": {2, false, "alias"}, "aliasRm": {2, false, "alias"},
 	"palE": {2, false, "alias"}, "palH": {2, false, "alias"}, "galE": {1, false, "alias"}, "galH": {1, false, "alias"},
@@ -242,6 +245,7 @@ var c19eMetricKinds = []string{"otsdbM", "otsdbK", "otsdbK", "otsdbV", "promM", 
 var c19eDashKinds = []string{"dashNew", "dashUpd", "dashGetE", "dashGetH", "dashDelE", "dashDelH", "dashFavE", "foldNew", "foldGetE", "foldDelE", "usqSave", "usqGetE", "usqDelE", "usqGetH"}
 var c19eAliasKinds = []string{"aliasAdd", "aliasAdd", "aliasRm", "palE", "palH", "galE", "galH", "headE", "headH"}
 var c19eMiscKinds = []string{"scroll", "staticR", "staticE", "pqsE", "sortcol"}
+var c19eColumnKinds = []string{"evkey", "evkey", "evkey", "sortcol", "sortcol", "sortq"}
 
 func c19eGenStep(r *rand.Rand, kind string, hostileShare int) string {
 	k := c19eKinds[kind]
@@ -280,6 +284,7 @@ func c19eGen(r *rand.Rand, n int, tier string) []string {
 	add(c19eStep("promK", "../../../../../../c19victim.txt"), c19eStep("promK", "host"), c19eStep("otsdbK", "../../../../../../c19new"), c19eStep("otlpK", "../../../../../../c19new"))
 	add(c19eStep("aliasAdd", "../../../../../c19victim", "c19al"), c19eStep("aliasAdd", "c19boot", "../../../../../c19victim"), c19eStep("aliasRm", "../../../../../c19victim", "c19al"))
 	add(c19eStep("bulk", "c19sc"), c19eStep("sortcol", "c19sc", "../../../../../../../c19new"), c19eStep("sortcol", "c19sc", "m"))
+	add(c19eStep("evkey", "../../../../../../../c19new"), c19eStep("evkey", "@ROOT@/L1/c19victim.txt"), c19eStep("evkey", "m"), c19eStep("sortq", "../../../../../../../c19victim"), c19eStep("sortq", "m"))
 	add(c19eStep("ilookup", "../../c19victim.csv"), c19eStep("ilookup", "@ROOT@/L1/c19victim.csv"), c19eStep("staticR", "../c19victim.txt"), c19eStep("staticE", "../server.yaml"), c19eStep("scroll", "../../../c19victim"))
 	out = append(out, "cf", "cf nosuchkind:61", "cf bulk", "cf bulk:zz", "cf bulk:61:62:63", "cf lkgetH:"+c19eHexS("a/b"))
 	for len(out) < n {
@@ -299,9 +304,27 @@ func c19eGen(r *rand.Rand, n int, tier string) []string {
 			for i := 2 + r.Intn(4); i > 0; i-- {
 				steps = append(steps, c19eGenStep(r, c19Pick(r, c19eLookupKinds), 75))
 			}
-		case fam < 68: // metrics: multi-sample series with hostile names / tag keys / values
+		case fam < 64: // metrics: multi-sample series with hostile names / tag keys / values
 			for i := 2 + r.Intn(4); i > 0; i-- {
 				steps = append(steps, c19eGenStep(r, c19Pick(r, c19eMetricKinds), 70))
+			}
+		case fam < 74: // column names: hostile JSON keys in events, sort columns, rotation with every background writer
+			idx := c19Pick(r, []string{"c19col", "c19ok", "c19idx"})
+			steps = append(steps, c19eStep("bulk", idx))
+			for i := 2 + r.Intn(3); i > 0; i-- {
+				k := c19Pick(r, c19eColumnKinds)
+				if k == "sortcol" { // index valid, column mostly hostile — and with all seven levels in half of the cases
+					col, _ := c19eHostile(r)
+					if r.Intn(2) == 0 {
+						col = strings.Repeat("../", c19eMaxUps) + c19Pick(r, c19eLeaves)
+					}
+					if r.Intn(5) == 0 {
+						col = c19eValid(r)
+					}
+					steps = append(steps, c19eStep("sortcol", idx, col))
+				} else {
+					steps = append(steps, c19eGenStep(r, k, 80))
+				}
 			}
 		case fam < 80:
 			steps = append(steps, c19eStep("dashNew", c19eValid(r)))
@@ -715,6 +738,19 @@ func c19eBuild(s *c19eSandbox, kind string, names []string) []c19eReq {
 				rq.Settle = true
 				return rq
 			}()}
+	case "evkey":
+		srch := func(q string) c19eReq {
+			return c19eRaw("q", "POST", A+"/search", c19eJSONHdr, c19eJSON(map[string]interface{}{"searchText": q, "indexName": "c19col", "startEpoch": "now-1h", "endEpoch": "now", "queryLanguage": "Splunk QL"}), false)
+		}
+		qn := strings.NewReplacer(`"`, ``, `\`, ``, "\x00", "").Replace(n)
+		ev := append(append(append(c19eJSON(map[string]interface{}{"index": map[string]string{"_index": "c19col"}}), '\n'), c19eJSON(map[string]interface{}{n: "v", "m": "c19", "num": 7})...), '\n')
+		ing := c19eRaw("i", "POST", E+"/_bulk", c19eJSONHdr, ev, true)
+		ing.Settle = true
+		return []c19eReq{srch(`* | stats count BY "` + qn + `"`), srch(`* | stats count BY "` + qn + `"`), srch(`"` + qn + `"=v`), srch(`"` + qn + `"=v`), ing, srch(`"` + qn + `"=v`)}
+	case "sortq":
+		qn := strings.NewReplacer(`"`, ``, `\`, ``, "\x00", "").Replace(n)
+		return []c19eReq{c19eRaw("q", "POST", A+"/search", c19eJSONHdr, c19eJSON(map[string]interface{}{"searchText": `* | sort "` + qn + `"`, "indexName": "c19sc", "startEpoch": "now-1h", "endEpoch": "now", "queryLanguage": "Splunk QL"}), false),
+			c19eRaw("q", "POST", A+"/search", c19eJSONHdr, c19eJSON(map[string]interface{}{"searchText": `* | sort -` + qn, "indexName": "*", "startEpoch": "now-1h", "endEpoch": "now", "queryLanguage": "Splunk QL"}), false)}
 	case "aliasAdd", "aliasRm":
 		act := map[string]string{"aliasAdd": "add", "aliasRm": "remove"}[kind]
 		return []c19eReq{c19eRaw("q", "POST", E+"/_aliases", c19eJSONHdr, c19eJSON(map[string]interface{}{"actions": []interface{}{map[string]interface{}{act: map[string]string{"index": n, "alias": n2}}}}), true)}
